@@ -58,7 +58,7 @@ class Fn:
 
     @property
     def key(self):
-        return (self.impl + '::' if self.impl else '') + self.name
+        return (self.impl + '::' if self.impl else '') + (self.rename or self.name)
 
 
 class TypeItem:
@@ -275,9 +275,6 @@ def _resolve_loop_keys(fn, headers):
     def subst(t, n):
         return t.replace('__I', '__i%d' % n).replace('__LO', '__lo%d' % n).replace('__HI', '__hi%d' % n).replace('__V', '__v%d' % n)
 
-    if not any(isinstance(k_, str) and k_.startswith('hdr:') for k_ in list(fn.loops) + list(fn.loop_kinds) + list(fn.hints)) \
-            and not any(isinstance(k_, tuple) and isinstance(k_[0], str) for k_ in fn.loop_kinds):
-        return fn
     f2 = _copy.copy(fn)
     f2.loops, f2.loop_kinds, f2.hints = {}, {}, {}
     for key, lp in fn.loops.items():
